@@ -20,7 +20,9 @@ CONSTANTS Chans,        \* channel ids that may be created by Sub
           Pubs,         \* publisher ids
           Kinds,        \* subset of {"Pub","PubWait","PubSync"}
           Timeout,      \* BOOLEAN: PubTimeoutAfter > 0
-          Recover       \* BOOLEAN: repair B (send recovers from closed channel)
+          Recover,      \* BOOLEAN: the asynchronous send tolerates a channel closed by Unsub (the repair)
+          ClonePubs,    \* publishers that publish through a WithOnly clone bound to channel OnlyChan (own mutex, not the parent's)
+          SyncRecover   \* BOOLEAN: the synchronous send tolerates a closed channel too (needed because a clone does not share the lock)
 CapOf == <<0, 1>>
 VARIABLES subs,     \* sequence of subscribed channel ids
           created,  \* set of channels created so far
@@ -35,6 +37,7 @@ VARIABLES subs,     \* sequence of subscribed channel ids
           panic
 vars == <<subs, created, buf, closed, rwait, got, rd, wr, wwait, snd, nid, pst, ust, tmo, panic>>
 Ev(p) == p * 10
+OnlyChan == CHOOSE c \in Chans : \A d \in Chans : c <= d
 Init == /\ subs = <<>> /\ created = {} /\ buf = [c \in Chans |-> <<>>] /\ closed = [c \in Chans |-> FALSE]
         /\ rwait = [c \in Chans |-> FALSE] /\ got = [c \in Chans |-> <<>>]
         /\ rd = 0 /\ wr = FALSE /\ wwait = FALSE /\ snd = {} /\ nid = 1
@@ -57,7 +60,23 @@ CanSend(c) == Len(buf[c]) < CapOf[c] \/ rwait[c]
 DoSend(c, ev) == IF rwait[c] THEN /\ got' = [got EXCEPT ![c] = Append(@, ev)] /\ rwait' = [rwait EXCEPT ![c] = FALSE] /\ UNCHANGED buf
                  ELSE /\ buf' = [buf EXCEPT ![c] = Append(@, ev)] /\ UNCHANGED <<got, rwait>>
 \* --- publishers ---
-PStart(p, k) == /\ pst[p].pc = "idle" /\ ~wr /\ ~wwait /\ ~panic
+\* a WithOnly clone made while OnlyChan was subscribed: it keeps the channel for good and has its own mutex
+CloneStart(p, k) == /\ p \in ClonePubs /\ pst[p].pc = "idle" /\ ~panic /\ OnlyChan \in created
+                    /\ IF k = "PubSync"
+                       THEN /\ pst' = [pst EXCEPT ![p] = [pc |-> "csync", kind |-> k, targets |-> <<OnlyChan>>, i |-> 1, wgc |-> 0, snap |-> <<OnlyChan>>]]
+                            /\ UNCHANGED <<snd, nid>>
+                       ELSE /\ snd' = snd \cup {[id |-> nid, c |-> OnlyChan, ev |-> Ev(p), p |-> p, wg |-> (k = "PubWait"), st |-> "ready"]}
+                            /\ nid' = nid + 1
+                            /\ pst' = [pst EXCEPT ![p] = [pc |-> IF k = "PubWait" THEN "wait" ELSE "done", kind |-> k, targets |-> <<OnlyChan>>, i |-> 0, wgc |-> 1, snap |-> <<OnlyChan>>]]
+                    /\ UNCHANGED <<subs, created, buf, closed, rwait, got, rd, wr, wwait, ust, tmo, panic>>
+\* the clone's synchronous send: not under the parent's lock, so the channel may have been closed meanwhile
+CSyncSend(p) == /\ pst[p].pc = "csync" /\ pst[p].i = 1
+                /\ IF closed[OnlyChan]
+                   THEN /\ (IF SyncRecover THEN UNCHANGED panic ELSE panic' = TRUE) /\ UNCHANGED <<buf, rwait, got>>
+                   ELSE /\ CanSend(OnlyChan) /\ DoSend(OnlyChan, Ev(p)) /\ UNCHANGED panic
+                /\ pst' = [pst EXCEPT ![p].i = 2, ![p].pc = "done"]
+                /\ UNCHANGED <<subs, created, closed, rd, wr, wwait, snd, nid, ust, tmo>>
+PStart(p, k) == /\ p \notin ClonePubs /\ pst[p].pc = "idle" /\ ~wr /\ ~wwait /\ ~panic
                 /\ rd' = IF k = "PubSync" THEN rd + 1 ELSE rd   \* async kinds: RLock..RUnlock in one step
                 /\ IF k = "PubSync"
                    THEN /\ pst' = [pst EXCEPT ![p] = [pc |-> "sync", kind |-> k, targets |-> subs, i |-> 1, wgc |-> 0, snap |-> subs]]
@@ -105,8 +124,15 @@ UDo == /\ ust.pc = "pending" /\ rd = 0 /\ ~wr
                /\ rwait' = [rwait EXCEPT ![ust.c] = FALSE]   \* parked receiver observes the close
           ELSE UNCHANGED <<closed, subs, rwait>>
        /\ UNCHANGED <<created, buf, got, rd, wr, snd, nid, pst, tmo, panic>>
+\* UnsubAll: closes every subscribed channel (writer lock)
+UAllDo == /\ ust.pc = "idle" /\ rd = 0 /\ ~wr /\ ~wwait /\ ~panic /\ subs # <<>>
+          /\ closed' = [c \in Chans |-> closed[c] \/ c \in Range(subs)] /\ subs' = <<>>
+          /\ rwait' = [c \in Chans |-> rwait[c] /\ c \notin Range(subs)]
+          /\ ust' = [ust EXCEPT !.pc = "done"]
+          /\ UNCHANGED <<created, buf, got, rd, wr, wwait, snd, nid, pst, tmo, panic>>
 Next == \/ \E c \in Chans : Sub(c) \/ RecvPark(c) \/ RecvBuf(c) \/ UAnnounce(c)
-        \/ \E p \in Pubs : (\E k \in Kinds : PStart(p, k)) \/ PSyncSend(p) \/ PSyncTimeout(p) \/ PSyncEnd(p) \/ PWaitEnd(p)
+        \/ \E p \in Pubs : (\E k \in Kinds : PStart(p, k) \/ CloneStart(p, k)) \/ PSyncSend(p) \/ CSyncSend(p) \/ PSyncTimeout(p) \/ PSyncEnd(p) \/ PWaitEnd(p)
+        \/ UAllDo
         \/ \E g \in snd : SSend(g) \/ STimeout(g)
         \/ UDo
 Spec == Init /\ [][Next]_vars /\ WF_vars(Next)
@@ -121,6 +147,8 @@ Quiescent == /\ \A g \in snd : g.st = "done" /\ \A p \in Pubs : pst[p].pc \in {"
 ExactlyOnceAtQuiescence == Quiescent => \A p \in Pubs : pst[p].pc = "done" =>
       \A j \in 1..Len(pst[p].snap) : LET c == pst[p].snap[j] IN
           closed[c] \/ Count(got[c] \o buf[c], Ev(p)) + (IF <<Ev(p), c>> \in tmo THEN 1 ELSE 0) = 1
+\* "WithOnly publishes to the one given subscription only"
+WithOnlyOnly == \A p \in ClonePubs, c \in Chans \ {OnlyChan} : Count(got[c] \o buf[c], Ev(p)) = 0 /\ <<Ev(p), c>> \notin tmo
 NothingAfterClose == \A c \in Chans : closed[c] => TRUE
 EventuallyQuiescent == <>[]Quiescent
 ====
